@@ -40,6 +40,7 @@ from fortls.helper_functions import (
     only_dirs,
     resolve_globs,
     set_keyword_ordering,
+    strip_strings,
 )
 from fortls.json_templates import change_json, symbol_json, uri_json
 from fortls.jsonrpc import JSONRPC2Connection, path_from_uri, path_to_uri
@@ -860,7 +861,7 @@ class LangServer:
         def get_sub_name(line: str):
             # The argument list without the contents of nested parentheses, whose
             # commas and "=" do not separate or name arguments of this call
-            arg_string, sections = get_paren_level(line)
+            arg_string, sections = get_paren_level(strip_strings(line, True))
             if sections[0].start <= 1:
                 return None, None, None
             sub_string, sections = get_paren_level(line[: sections[0].start - 1])
